@@ -255,3 +255,14 @@ MUTANTS += [
      "    Lx, Ly = np.meshgrid(lx, ly)\n",
      "    _memo = globals().setdefault('_LXLY', {})\n    if (nlx, nly, nxe, nye) not in _memo:\n        _memo[(nlx, nly, nxe, nye)] = np.meshgrid(lx, ly)\n    Lx, Ly = _memo[(nlx, nly, nxe, nye)]\n"),
 ]
+
+MUTANTS += [
+    # ---- the two kernel variants share one on-disk cache entry again (regression of 18e72a9): visible only in the
+    #      multi-thread-first kernel world / with an empty kernel cache
+    ("c14_kernel_variants_share_cache_entry", "C14", "utils.py",
+     '            variant.__qualname__ = func.__qualname__ + (\n                "_parallel" if use_parallel else "_serial"\n            )\n',
+     '            variant.__qualname__ = func.__qualname__\n'),
+    ("c14_worker_sets_numba_env_after_fork", "C14", "interface.py",
+     '    config, tower, met_index = args\n    # Reset inherited state from parent process to avoid fork-safety issues\n',
+     '    config, tower, met_index = args\n    # Reset inherited state from parent process to avoid fork-safety issues\n    os.environ["NUMBA_NUM_THREADS"] = "1"\n'),
+]
